@@ -15,6 +15,10 @@ Local Open Scope ring_scope.
 
 Definition Qc_ofz (z : Z) : Qc := Q2Qc (inject_Z z).
 
+(** integer literals as BigRationals, for the examples *)
+Definition qz (z : Z) : Qc := Q2Qc (inject_Z z).
+Definition qzm (a : list (list Z)) : list (list Qc) := List.map (List.map qz) a.
+
 (** the model's BigRational operations are the field operations of [Qc_fieldType] *)
 Lemma fopsQcE : fopsQc = @fops_of Qc_fieldType Qc_ofz.
 Proof. by []. Qed.
@@ -92,6 +96,14 @@ Theorem solve_complete (a : list (list Qc)) (b : list Qc) :
 Proof.
 move=> Sq Lb; case: (LinAlgTotal.solve_total fopsQc _ _ Sq Lb) => [[x|e] H] /=; first by exists x.
 by rewrite (solve_err H) eqxx.
+Qed.
+
+Theorem solve_singular (a : list (list Qc)) (b : list Qc) :
+  square a -> length b = length a -> let n := length a in \det (qmx n n a) = 0 ->
+  solve_linear_system fopsQc a b = Done (Err MatrixNotInvertible).
+Proof.
+move=> Sq Lb; case: (LinAlgTotal.solve_total fopsQc _ _ Sq Lb) => [[x|[]] H] //= D0.
+by move: H; rewrite fopsQcE => /solve_ok_det; rewrite -qmxE D0 eqxx.
 Qed.
 
 (** ** triangular::mul_inv_from_right_exact *)
